@@ -52,6 +52,16 @@ func Seeds() [][]byte {
 		fb("senc", 0, 2, U32(1), make([]byte, 8), U16(1), U16(5), U32(100)),
 		fb("sgpd", 1, 0, []byte("seig"), U32(20), U32(1), []byte{0, 0, 1, 8}, make([]byte, 16)),
 		fb("sgpd", 1, 0, []byte("roll"), U32(2), U32(1), U16(0xffff)),
+		// description lengths that disagree with the known syntax of the grouping type (longer / shorter, as default
+		// length and per entry): whatever the decoder does with them, Size() and the bytes written must agree
+		fb("sgpd", 1, 0, []byte("roll"), U32(4), U32(1), U16(0xfffe), U16(0x1234)),
+		fb("sgpd", 1, 0, []byte("roll"), U32(4), U32(2), U16(1), U16(0), U16(2), U16(0)),
+		fb("sgpd", 1, 0, []byte("roll"), U32(0), U32(2), U32(2), U16(1), U32(4), U16(2), U16(0x5555)),
+		fb("sgpd", 1, 0, []byte("roll"), U32(1), U32(1), []byte{7}),
+		fb("sgpd", 1, 0, []byte("rap "), U32(2), U32(1), []byte{0x80, 0x11}),
+		fb("sgpd", 1, 0, []byte("prol"), U32(6), U32(1), U16(3), U32(0x01020304)),
+		fb("sgpd", 1, 0, []byte("seig"), U32(24), U32(1), []byte{0, 0, 1, 8}, make([]byte, 16), U32(0x0a0b0c0d)),
+		fb("sgpd", 2, 0, []byte("roll"), U32(1), U32(1), U16(9)),
 		fb("subs", 0, 0, U32(1), U32(1), U16(1), U16(10), []byte{0, 0}, U32(0)),
 		fb("subs", 1, 0, U32(1), U32(1), U16(1), U32(10), []byte{0, 0}, U32(0)),
 		fb("elng", 0, 0, []byte("en-US\x00")), fb("kind", 0, 0, []byte("urn:a\x00"), []byte("b\x00")),
